@@ -1,7 +1,7 @@
 """rel_common.py - DDL extraction from /repo's schema creators and differential validation of lsx/models_rel.py against the real SQLite."""
 import re, os, sys, random, sqlite3
 sys.path.insert(0, os.path.dirname(os.path.dirname(os.path.abspath(__file__))))
-from lsx import models_rel, models_sqlite
+from lsx import models_rel, models_sqlite, driver
 
 SCHEMA_FILES_V2 = {0: 'schema_2_18_0.cpp', 1: 'schema_2_20_1.cpp', 2: 'schema_2_20_2.cpp', 3: 'schema_2_20_3.cpp', 4: 'schema_2_21_0.cpp', 5: 'schema_2_21_1.cpp', 6: 'schema_2_21_2.cpp'}
 SCHEMA_FILES_V1 = {0: 'schema_1_6_0.cpp', 1: 'schema_1_7_1.cpp', 2: 'schema_1_9_1.cpp', 3: 'schema_1_11_1.cpp', 4: 'schema_1_13_0.cpp', 5: 'schema_1_13_1.cpp', 6: 'schema_1_13_2.cpp',
@@ -17,7 +17,7 @@ def extract_ddl(path):
     return out
 def ddl_for(gen, schema_idx):
     f = (SCHEMA_FILES_V2 if gen == 2 else SCHEMA_FILES_V1)[schema_idx]
-    return [s for s in extract_ddl('/repo/src/djinterop/engine/schema/' + f) if s.lstrip().upper().startswith('CREATE')]
+    return [s for s in extract_ddl(os.path.join(driver.REPO, 'src/djinterop/engine/schema', f)) if s.lstrip().upper().startswith('CREATE')]
 
 # ---- running the model outside the executor (concrete values only)
 class _FakeEng:
